@@ -230,7 +230,7 @@ def check_e2e(arc, frac):
         if hit and f.fwd:
             return ("C16 arc %r from (%r, %r) passes through the centre of a radius-1 region at (%r, %r) but was "
                     "forwarded: %r" % (cmd, sx, sy, gx, gy, f.result))
-        if not hit and not (f.result is None or f.result == [cmd]):
+        if not hit and f.fwd != [cmd]:
             return ("C16 arc %r from (%r, %r) stays 2.5 mm clear of the only region (disc r=1 at (%r, %r)) but was "
                     "not forwarded verbatim: %r" % (cmd, sx, sy, gx, gy, f.result))
     return None
